@@ -36,7 +36,7 @@ ASSUMPTIONS = ["wildcards take no arguments (default wildcard: every expression 
                "LF line ends, UTF-8; overlapping windows of a multi-statement pattern: which of them is rewritten "
                "is not decided by the statement, only 'nothing else changes' is checked there",
                "which occurrence of a repeated wildcard is reported is not decided: any occurrence is accepted"]
-BUDGET = {"quick": (2000, 70), "thorough": (80000, 480)}
+BUDGET = {"quick": (2000, 240), "thorough": (36000, 900)}
 EXHAUSTIVE = {}
 REQUIRE = {"patterns_checked": 300, "match_sets_compared": 300, "multi_instance_patterns": 60,
            "nested_instance_patterns": 10, "region_excludes_some_instance": 30, "repeated_wildcard_patterns": 20,
@@ -1127,7 +1127,11 @@ def check_restructure(res, cx, p, gkind, goal_text, ref, full, via):
         what = "goal == pattern changed the module's syntax tree"
     else:
         res.ev("restructure_tree_compared")
-        good = new_tree is not None and refmatch.ndump(new_tree) == refmatch.ndump(expected)
+        try:
+            good = new_tree is not None and refmatch.ndump(new_tree) == refmatch.ndump(expected)
+        except RecursionError:
+            res.ev("restructure_tree_too_deep_to_compare")
+            return
         clause = "meaning-changed"
         what = "the restructured module is not the module with every instance replaced by the goal (tree level)"
     if via == "replace":
@@ -1267,6 +1271,13 @@ def _one_pattern(res, cx, p, rnd, sample):
     if p.get("sets_differ"):
         # the expectation for a restructuring is built on the instances; a wrong match set was reported above
         res.ev("restructure_skipped_match_sets_differ")
+        return
+    import re as _re
+    if _re.fullmatch(r"\$\{\??\w+\}", p["text"].strip()):
+        # a pattern that is nothing but one wildcard matches every expression of the module, including
+        # positions where wrapping changes the node kind (`name: T` -> `(name): T`); not a pattern "abstracted
+        # from the module" in the sense of the rule -- matched, but not restructured
+        res.ev("restructure_skipped_bare_wildcard")
         return
     goals = make_goals(p, rnd)
     for gkind, gtext in goals:
